@@ -2,6 +2,18 @@ import Gallia.Lib.Proto
 import Gallia.Model.Scans
 open Gallia Gallia.Proto Gallia.Scans
 
+/-
+  Line protocol (one case per line):
+
+    svc <sessions> <check 0|1> <response ids 0|1> <skip> <reset level|none> <hooks> | <wire answers>
+    id  <sessions> <start> <end> <payload hex|-> <service> <check n|none> <skip> <skip-not-supported 0|1> <default max_retry> <hooks> | <wire answers>
+
+  sessions: `none`, `-` (empty list) or `a,b,c`; skip: `-` or `k:*;k:a,b`; hooks: `-` or `level/pre/post;...` with
+  pre / post = `-` or comma separated hex requests; wire answers, one per transmission, in order:
+  `[<k>*]p<hex>`, `[<k>*]n<code>`, `[<k>*]t` (silence), `[<k>*]g` (unparsable reply), k ResponsePending frames first.
+  The model runs `serviceScan` / `identScan` on the real client loop (`clientEcu`) over the scripted wire ECU.
+-/
+
 def parseNatList (s : String) : Option (List Nat) :=
   if s == "-" || s == "" then some [] else (s.splitOn ",").mapM (·.toNat?)
 
@@ -20,12 +32,33 @@ def parseSkipEntry (s : String) : Option (Nat × Option (List Nat)) :=
 def parseSkip (s : String) : Option Skip :=
   if s == "-" then some [] else ((s.splitOn ";").filter (· ≠ "")).mapM parseSkipEntry
 
-def parseAns (s : String) : Option Ans :=
+def parseHexList (s : String) : Option (List Bytes) :=
+  if s == "-" || s == "" then some [] else (s.splitOn ",").mapM parseHex
+
+def parseHookEntry (s : String) : Option (Nat × List Bytes × List Bytes) :=
+  match s.splitOn "/" with
+  | [k, pre, post] => do pure (← k.toNat?, ← parseHexList pre, ← parseHexList post)
+  | _ => none
+
+def mkHooks (es : List (Nat × List Bytes × List Bytes)) : Hooks where
+  pre k := ((es.find? (·.1 == k)).map (·.2.1)).getD []
+  post k := ((es.find? (·.1 == k)).map (·.2.2)).getD []
+
+def parseHooks (s : String) : Option (List (Nat × List Bytes × List Bytes)) :=
+  if s == "-" then some [] else ((s.splitOn ";").filter (· ≠ "")).mapM parseHookEntry
+
+def parseFinal (s : String) : Option WMsg :=
   match s.toList with
-  | 'p' :: rest => (parseHex (String.ofList rest)).map Ans.pos
-  | 'n' :: rest => (String.ofList rest).toNat?.map Ans.neg
-  | ['t'] => some .timeout
-  | ['i'] => some .illegal
+  | 'p' :: rest => (parseHex (String.ofList rest)).map WMsg.pos
+  | 'n' :: rest => (String.ofList rest).toNat?.map WMsg.neg
+  | ['t'] => some .silent
+  | ['g'] => some .garbage
+  | _ => none
+
+def parseWAns (s : String) : Option WAns :=
+  match s.splitOn "*" with
+  | [f] => (parseFinal f).map fun m => ⟨0, m⟩
+  | [k, f] => do pure ⟨← k.toNat?, ← parseFinal f⟩
   | _ => none
 
 def showReqs (log : List Bytes) : String :=
@@ -39,32 +72,38 @@ def showCounts (ps : List (Nat × IdCount)) : String :=
 
 def bit (s : String) : Option Bool := if s == "1" then some true else if s == "0" then some false else none
 
-def runSvc (args : List String) (answers : List Ans) : Option String := do
+def tail (st : Scripted) : String := s!"reqs={showReqs st.log} left={st.answers.length}"
+
+def runSvc (args : List String) (answers : List WAns) : Option String := do
   match args with
-  | [sess, chk, rid, skip] =>
-    let cfg : SvcCfg := { sessions := ← parseSessions sess, checkSession := ← bit chk, scanResponseIds := ← bit rid, skip := ← parseSkip skip }
-    -- the scripted ECU logs requests in its state; on `raised` the state is lost, so re-run on a logging wrapper
-    match serviceScan scriptedEcu cfg { answers := answers } with
-    | .ok r => pure s!"ok result={showPairs r.result} clean={if r.clean then 1 else 0} reqs={showReqs r.state.log} left={r.state.answers.length}"
-    | .raised w => pure s!"raised {w}"
+  | [sess, chk, rid, skip, reset, hooks] =>
+    let cfg : SvcCfg := { sessions := ← parseSessions sess, checkSession := ← bit chk, scanResponseIds := ← bit rid,
+                          skip := ← parseSkip skip,
+                          reset := ← (if reset == "none" then some none else reset.toNat?.map some),
+                          hooks := mkHooks (← parseHooks hooks) }
+    match serviceScan (clientEcu scriptedEcu svcRetry) cfg { answers := answers } with
+    | (st, .ok r) => pure s!"ok result={showPairs r.result} clean={if r.clean then 1 else 0} abort={showPairs r.aborted} {tail st}"
+    | (st, .raised w) => pure s!"raised {w} {tail st}"
   | _ => none
 
-def runId (args : List String) (answers : List Ans) : Option String := do
+def runId (args : List String) (answers : List WAns) : Option String := do
   match args with
-  | [sess, start, stop, payload, service, chk, skip, sns] =>
+  | [sess, start, stop, payload, service, chk, skip, sns, dflt, hooks] =>
+    let hs ← parseHooks hooks
     let cfg : IdCfg := { sessions := ← parseSessions sess, start := ← start.toNat?, stop := ← stop.toNat?,
                          payload := ← parseHex payload, service := ← service.toNat?,
                          checkSession := ← (if chk == "none" then some none else chk.toNat?.map some),
-                         skip := ← parseSkip skip, skipNotSupported := ← bit sns }
-    match identScan scriptedEcu cfg { answers := answers } with
-    | .ok r => pure s!"ok per={showCounts r.perSession} clean={if r.clean then 1 else 0} reqs={showReqs r.state.log} left={r.state.answers.length}"
-    | .raised w => pure s!"raised {w}"
+                         skip := ← parseSkip skip, skipNotSupported := ← bit sns, hooks := mkHooks hs }
+    let hookPdus := hs.flatMap fun e => e.2.1 ++ e.2.2
+    match identScan (clientEcu scriptedEcu (idRetry (← dflt.toNat?) hookPdus)) cfg { answers := answers } with
+    | (st, .ok r) => pure s!"ok per={showCounts r.perSession} clean={if r.clean then 1 else 0} {tail st}"
+    | (st, .raised w) => pure s!"raised {w} {tail st}"
   | _ => none
 
 def step (line : String) : String :=
   match line.splitOn "|" with
-  | [head, tail] =>
-    match (words tail).mapM parseAns with
+  | [head, tl] =>
+    match (words tl).mapM parseWAns with
     | none => "bad-answers"
     | some answers =>
       match words head with
